@@ -77,7 +77,9 @@ class AbsPDF:
 
     @contextlib.contextmanager
     def temp_params(self, var):
-        params = self.get_params()
+        # the values to restore are the stored ones, not the view through a parameter mask
+        with self.vm.mask_params({}):
+            params = self.get_params()
         self.set_params(var)
         try:
             yield var
